@@ -3,7 +3,7 @@
 // independent oracle), runs the real scanner and parser of go.starlark.net/syntax
 // on the text and prints what was observed, one JSON object per line.
 //
-//	c14 -seed S -n N -mode expr|file|lit|layout|near|unparen|ungram|all
+//	c14 -seed S -n N -mode expr|file|lit|layout|near|unparen|ungram|lists|all
 package main
 
 import (
@@ -264,7 +264,7 @@ func modeTie(kind string, n int, fam *hx.Rand) {
 func main() {
 	seed := flag.Uint64("seed", 1, "seed")
 	n := flag.Int("n", 200, "cases per family")
-	mode := flag.String("mode", "all", "expr file lit layout near unparen ungram all")
+	mode := flag.String("mode", "all", "expr file lit layout near unparen ungram lists all")
 	flag.Parse()
 	defer hx.Flush()
 
@@ -288,6 +288,8 @@ func main() {
 		modeUnparen(*n, rUnparen)
 	case "ungram":
 		modeUngram(*n, rUngram)
+	case "lists":
+		modeLists(*n)
 	case "all":
 		modeTie("expr", *n, rExpr)
 		modeTie("file", *n, rFile)
@@ -304,6 +306,7 @@ func main() {
 		}
 		modeUnparen(nu, rUnparen)
 		modeUngram(len(ugTemplates), rUngram)
+		modeLists(4)
 	default:
 		fmt.Fprintln(os.Stderr, "unknown mode", *mode)
 		os.Exit(2)
